@@ -1286,7 +1286,7 @@ func (p Patch) ApplyIndentWithOptions(doc []byte, indent string, options *ApplyO
 	self := newLazyNode(&raw)
 
 	var pd container
-	if doc[0] == '[' {
+	if bytes.TrimLeft(doc, " \t\r\n")[0] == '[' {
 		pd = &partialArray{
 			self: self,
 		}
